@@ -43,6 +43,12 @@ def gen_case(rng, big):
     npix = int(np.prod(dims))
     nin = npix * s ** ndim
     case = {'dims': dims, 'delta': delta, 's': s, 'kind': kind}
+    if rng.random() < 0.15 and min(dims) >= 2:      # (the weights of a separated grid need two points per axis)
+        # a detector grid with separated, non-regular coordinates (subsampling 1: a supersampled input grid only exists
+        # for regular grids); NoisyDetector then goes through the non-regular branch of subsample_field
+        s = case['s'] = 1
+        nin = npix
+        case['axes'] = [np.cumsum([0.0] + [float(rng.choice([0.25, 0.5, 1.0, 1.5])) for _ in range(d - 1)]).tolist() for d in dims]
     if kind == 'noisy-det':
         case['dark'] = dyadic(rng, 0, 4, 3)
         case['flat'] = [dyadic(rng, 0.5, 1.5, 4) for _ in range(npix)]
@@ -196,6 +202,11 @@ def _ones(n, v=1.0):
 
 
 DIRECTED = [
+    # detector grids with non-regular separated coordinates (subsampling 1)
+    D('noisy-off', [3, 2], 1, [['int', 'field', [1.0, 2, 3, 4, 5, 6], 0.5, 2.0, False], ['int', 'plain', [1.0, 0, 1, 0, 1, 0], 1.0, 1.0, False], ['read'], ['read']],
+      axes=[[0.0, 0.5, 2.0], [0.0, 1.5]]),
+    D('noiseless', [2, 2], 1, [['int', 'foreignfield', [1.0, 2, 3, 4], 1.0, 1.0, False], ['read'], ['call', 'field', [4.0, 3, 2, 1], 2.0, 1.0, False]],
+      axes=[[0.0, 0.25], [1.0, 3.0]]),
     # parameter setters: scalar 0 (constructor default) -> explicit map -> the same scalar again, then everything off
     D('noisy-set', [2, 2], 1, [['int', 'field', [1.0, 2, 3, 4], 1.0, 1.0, False], ['read'],
                                ['set', 'flat_field', ['array', [2.0, 0.5, 1.5, 1.0]]], ['int', 'field', [1.0, 2, 3, 4], 1.0, 1.0, False], ['read'],
@@ -249,6 +260,8 @@ def make_detector(case):
     dims = case['dims']
     extent = [d * n for d, n in zip(case['delta'], dims)]
     grid = hcipy.make_uniform_grid(dims, extent)
+    if 'axes' in case:
+        grid = hcipy.CartesianGrid(hcipy.SeparatedCoords([np.array(a, dtype=float) for a in case['axes']]))
     s = case['s']
     if case['kind'] == 'noiseless':
         det = hcipy.NoiselessDetector(grid, s)
@@ -680,6 +693,7 @@ def check_case(ctx, case, lines, index):
     ctx.count('kind:' + case['kind'])
     ctx.count('ndim:%d' % len(case['dims']))
     ctx.count('subsampling:%d' % case['s'])
+    ctx.count('detector-grid:' + ('separated-non-regular' if 'axes' in case else 'regular'))
     ctx.count('style:' + case['style'])
     ctx.count('readouts', nread)
     ctx.count('integrations', nint)
@@ -789,7 +803,8 @@ def compare_model(ctx, out, case, obs, base):
 
 def run(ctx):
     ctx.rule = ('histories of integrate / read_out / __call__ on NoiselessDetector and NoisyDetector (all noise off, or '
-                'deterministic dark current + flat-field map) over regular 1-, 2- and 3-D detector grids with subsampling 1-4; '
+                'deterministic dark current + flat-field map) over regular 1-, 2- and 3-D detector grids with subsampling 1-4 and (12%) '
+                'separated non-regular detector grids with subsampling 1; '
                 'power given as Field, Wavefront, plain ndarray, list, integer or boolean Field; dt and weight dyadic (also Python '
                 'ints); the caller also overwrites images it got back and buffers it passed in. Every read-out is compared '
                 'with an exact Fraction reference (brute-force binning), with the Lean model, with the twin detector kind, for '
